@@ -117,7 +117,7 @@ theorem stroke_above_fill (bg : RGBA α) (fr fg fb fo sr sg sb : α) :
     the alpha `picoStroked` assumes for the lower layer -/
 theorem fill_piece_fields (shape : ShapeRec) (d : String)
     (h1 : (shape.get "opacity").isSome = true) (h2 : (shape.get "fill_opacity").isSome = true) :
-    (SvgObj.strokePieces shape d).1.get "opacity" = some (.f (shape.getF "opacity" * shape.getF "fill_opacity"))
+    (SvgObj.strokePieces shape d).1.get "opacity" = some (.f (clampOpacity (shape.getF "opacity") * clampOpacity (shape.getF "fill_opacity")))
     ∧ (SvgObj.strokePieces shape d).1.get "fill_opacity" = some (.f 1.0) :=
   StrokeP.fill_piece shape d h1 h2
 
@@ -125,7 +125,7 @@ theorem fill_piece_fields (shape : ShapeRec) (d : String)
 theorem stroke_piece_fields (shape : ShapeRec) (d : String)
     (h1 : (shape.get "opacity").isSome = true) (h2 : (shape.get "fill_opacity").isSome = true)
     (h3 : (shape.get "fill").isSome = true) :
-    (SvgObj.strokePieces shape d).2.get "opacity" = some (.f (shape.getF "opacity" * shape.getF "stroke_opacity"))
+    (SvgObj.strokePieces shape d).2.get "opacity" = some (.f (clampOpacity (shape.getF "opacity") * clampOpacity (shape.getF "stroke_opacity")))
     ∧ (SvgObj.strokePieces shape d).2.get "fill" = some (.s (shape.getS "stroke"))
     ∧ (SvgObj.strokePieces shape d).2.get "fill_opacity" = some (.f 1.0) :=
   StrokeP.stroke_piece shape d h1 h2 h3
